@@ -100,6 +100,8 @@ enum Case {
     Io(Scenario, IoFault, bool),
     /// (history, keys in the base file, corruption)
     Corrupt(usize, usize, Corrupt),
+    /// seeded sequence of several faults (choice stream), k-th of the batch
+    Seq(u64),
 }
 
 /// Number of keys held after the boot load and after each rotation (model of
@@ -206,6 +208,9 @@ fn build_cases(thorough: bool) -> Vec<Case> {
             }
         }
     }
+    for k in 0..if thorough { 60_000 } else { 4_000 } {
+        cases.push(Case::Seq(k));
+    }
     cases
 }
 
@@ -310,7 +315,14 @@ fn serve(ks: Arc<KeySet>, c: &Cookie) -> Result<bool, String> {
 /// The complete "use it" exercise of clause (c) / (a): issue, decode, serve.
 fn exercise(what: &str, ks: &Arc<KeySet>, r: &mut Rng, detail: &str) -> bool {
     let view = ks.verif_disk_view();
-    let shape = format!("{what}: keys={} primary={} id_offset={} [{detail}]", view.0.len(), view.2, view.1);
+    let class = if view.2 as usize == view.0.len() {
+        "class=primary-equals-key-count"
+    } else if view.2 as usize > view.0.len() {
+        "class=primary-beyond-key-count"
+    } else {
+        "class=primary-in-range"
+    };
+    let shape = format!("{what}: keys={} primary={} id_offset={} {class} [{detail}]", view.0.len(), view.2, view.1);
     match issue(ks, r) {
         Err(msg) => {
             check!(P, "use-no-panic", false, "encode_cookie panicked ({msg}) on the key set the daemon runs with; {shape}");
@@ -336,13 +348,15 @@ fn exercise(what: &str, ks: &Arc<KeySet>, r: &mut Rng, detail: &str) -> bool {
 // ---------------------------------------------------------------------------
 
 struct Proc {
-    rx: watch::Receiver<Arc<KeySet>>,
+    rx: Option<watch::Receiver<Arc<KeySet>>>,
     disk: Arc<Disk>,
     loop_dead: bool,
 }
 
 fn log_ops(disk: &Disk) {
-    for op in disk.take_ops() {
+    let ops = disk.take_ops();
+    for (idx, op) in ops.iter().cloned().enumerate() {
+        let cut_by_crash = matches!(ops.get(idx + 1), Some(Op::Crash { .. }));
         match op {
             Op::OpenRead { file, found, len } => ev!("fs open-read {file} found={found} len={len}"),
             Op::OpenWrite { file, create, truncate, mode, created, old_len, err } => {
@@ -353,6 +367,7 @@ fn log_ops(disk: &Disk) {
                     Some("ENOSPC") => fault("disk-enospc"),
                     Some("EIO") => fault("disk-eio"),
                     Some("EINTR") => fault("disk-eintr"),
+                    _ if accepted < offered && cut_by_crash => fault("torn-write"),
                     _ if accepted < offered => fault("disk-short-write"),
                     _ => {}
                 }
@@ -387,7 +402,7 @@ impl Proc {
         disk.set_on_release(Arc::new(move |n| rand::verif_seed(mix(&[seed, n]))));
         ev!("daemon start #{seq}");
         let rx = simfs::spawn_key_provider(cfg.clone()).await;
-        let mut p = Proc { rx, disk: disk.clone(), loop_dead: false };
+        let mut p = Proc { rx: Some(rx), disk: disk.clone(), loop_dead: false };
         p.wait_parked();
         if simkit::with(|s| s.aborted.is_some()) {
             return None;
@@ -402,7 +417,7 @@ impl Proc {
             if self.disk.wait_parked(Duration::from_millis(5)).is_some() {
                 break;
             }
-            if self.rx.has_changed().is_err() {
+            if self.rx.as_ref().map(|r| r.has_changed().is_err()).unwrap_or(true) {
                 // the sender is gone although we still listen: the loop thread panicked
                 self.loop_dead = true;
                 break;
@@ -417,7 +432,7 @@ impl Proc {
     }
 
     fn current(&self) -> Arc<KeySet> {
-        self.rx.borrow().clone()
+        self.rx.as_ref().expect("live process").borrow().clone()
     }
 
     /// The rotation interval elapses: the loop rotates, stores, publishes and sleeps again.
@@ -433,16 +448,23 @@ impl Proc {
     /// The process ends (SIGKILL / crash / shutdown: the provider has no shutdown
     /// path of its own). Whatever its threads still attempt has no effect.
     fn kill(self) {
-        let Proc { rx, disk, loop_dead } = self;
-        disk.freeze();
-        drop(rx);
-        if !loop_dead {
-            disk.release();
-            if !disk.wait_zombie_ops(1, REAL_TIMEOUT) {
+        drop(self)
+    }
+}
+
+impl Drop for Proc {
+    fn drop(&mut self) {
+        // also runs on early returns and unwinding: a rotation loop left parked would
+        // block the runtime's shutdown forever
+        self.disk.freeze();
+        self.rx = None;
+        if !self.loop_dead {
+            self.disk.release();
+            if !self.disk.wait_zombie_ops(1, REAL_TIMEOUT) {
                 simkit::abort("harness: zombie rotation loop did not end".into());
             }
         }
-        log_ops(&disk);
+        log_ops(&self.disk);
         ev!("daemon process gone");
     }
 }
@@ -475,11 +497,13 @@ fn put_pre(disk: &Disk, pre: Pre, r: &mut Rng) -> Option<View> {
             Some(view)
         }
         Pre::Garbage => {
-            let len = 21 + r.below(600) as usize;
+            let len = 21 + r.below(180) as usize; // too short for the 3 keys its header announces
             let mut bytes: Vec<u8> = (0..len).map(|_| r.next_u64() as u8).collect();
             // plausible header so that the loader gets past it: len field small
             bytes[16..20].copy_from_slice(&3u32.to_be_bytes());
             bytes[12..16].copy_from_slice(&1u32.to_be_bytes());
+            // a time field >= 2^63 makes load panic (established by the corrupted-file cases); not the point here
+            bytes[0] &= 0x7f;
             disk.put_file(FILE, bytes, 0o644);
             None
         }
@@ -490,64 +514,94 @@ fn put_pre(disk: &Disk, pre: Pre, r: &mut Rng) -> Option<View> {
 // cases A and B
 // ---------------------------------------------------------------------------
 
-async fn run_lifecycle(disk: Arc<Disk>, s: Scenario, crash: Option<Option<u64>>, io: IoFault, extra_rotation: bool) {
-    let mut r = Rng::new(mix(&[simkit::seed(), 0x636f6f6b]));
-    let cfg = KeysetConfig { stale_key_count: s.history, key_rotation_interval: 86_400, key_storage_path: Some(disk.path(FILE)) };
-    let pre_view = put_pre(&disk, s.pre, &mut r);
-    let counts = key_counts(&s);
-    let is_load_fault = matches!(io, IoFault::LoadShortReads | IoFault::LoadEintr | IoFault::LoadEio(_));
+#[derive(Clone, Debug, Default)]
+struct Faults {
+    /// None = no crash; Some(None) = before the open; Some(Some(c)) = after c bytes
+    crash: Option<Option<u64>>,
+    write_script: Vec<WriteStep>,
+    open_fault: Option<OpenFault>,
+    /// faults while the restarted daemon loads the file
+    read_script: Vec<ReadStep>,
+    /// the crash point may lie behind an earlier I/O error (random sequences only)
+    crash_may_miss: bool,
+}
 
-    // fault plan for the store under test
-    let target_plan = |nkeys: usize| -> Plan {
+impl Faults {
+    fn store_faulted(&self) -> bool {
+        self.crash.is_some() || self.open_fault.is_some() || self.write_script.iter().any(|w| *w != WriteStep::Full)
+    }
+    fn load_fails(&self) -> bool {
+        self.read_script.contains(&ReadStep::Eio)
+    }
+    fn plan(&self) -> Plan {
         let mut plan = Plan::default();
-        match crash {
+        match self.crash {
             Some(None) => plan.crash_before_open = true,
             Some(Some(c)) => plan.crash_after_bytes = Some(c),
             None => {}
         }
-        let lens: Vec<usize> = [8usize, 4, 4, 4].into_iter().chain(std::iter::repeat(64).take(nkeys)).collect();
-        let mut script = vec![];
-        match io {
-            IoFault::Enospc(k) => {
-                script = vec![WriteStep::Full; k];
-                script.push(WriteStep::Enospc);
-            }
-            IoFault::Eio(k) => {
-                script = vec![WriteStep::Full; k];
-                script.push(WriteStep::Eio);
-            }
-            IoFault::Eintr(k) => {
-                script = vec![WriteStep::Full; k];
-                script.push(WriteStep::Eintr);
-            }
-            IoFault::Short(k, var) => {
-                script = vec![WriteStep::Full; k];
-                let l = lens.get(k).copied().unwrap_or(64);
-                script.push(WriteStep::Short(match var {
+        plan.write_script = self.write_script.clone();
+        plan.open_write_fault = self.open_fault;
+        plan
+    }
+}
+
+/// The single-fault cases of section B as a fault description (`nkeys` = keys written by the store under test).
+fn faults_of(io: IoFault, nkeys: usize) -> Faults {
+    let mut f = Faults::default();
+    let lens: Vec<usize> = [8usize, 4, 4, 4].into_iter().chain(std::iter::repeat(64).take(nkeys)).collect();
+    let at = |k: usize, step: WriteStep| {
+        let mut v = vec![WriteStep::Full; k];
+        v.push(step);
+        v
+    };
+    match io {
+        IoFault::Clean => {}
+        IoFault::Enospc(k) => f.write_script = at(k, WriteStep::Enospc),
+        IoFault::Eio(k) => f.write_script = at(k, WriteStep::Eio),
+        IoFault::Eintr(k) => f.write_script = at(k, WriteStep::Eintr),
+        IoFault::Short(k, var) => {
+            let l = lens.get(k).copied().unwrap_or(64);
+            f.write_script = at(
+                k,
+                WriteStep::Short(match var {
                     0 => 1,
                     1 => l / 2,
                     _ => l - 1,
-                }));
-            }
-            IoFault::OpenNotFound => plan.open_write_fault = Some(OpenFault::NotFound),
-            IoFault::OpenDenied => plan.open_write_fault = Some(OpenFault::PermissionDenied),
-            _ => {}
+                }),
+            );
         }
-        plan.write_script = script;
-        plan
-    };
+        IoFault::OpenNotFound => f.open_fault = Some(OpenFault::NotFound),
+        IoFault::OpenDenied => f.open_fault = Some(OpenFault::PermissionDenied),
+        IoFault::LoadShortReads => f.read_script = (0..40).map(|k| ReadStep::Short(1 + k % 7)).collect(),
+        IoFault::LoadEintr => f.read_script = vec![ReadStep::Eintr, ReadStep::Full, ReadStep::Eintr, ReadStep::Short(3), ReadStep::Eintr],
+        IoFault::LoadEio(k) => {
+            f.read_script = vec![ReadStep::Full; k];
+            f.read_script.push(ReadStep::Eio);
+        }
+    }
+    f
+}
+
+async fn run_lifecycle(disk: Arc<Disk>, s: Scenario, f: Faults, extra_rotation: bool) {
+    let mut r = Rng::new(mix(&[simkit::seed(), 0x636f6f6b]));
+    let cfg = KeysetConfig { stale_key_count: s.history, key_rotation_interval: 86_400, key_storage_path: Some(disk.path(FILE)) };
+    let pre_view = put_pre(&disk, s.pre, &mut r);
+    let counts = key_counts(&s);
+    let crash = f.crash;
+    ev!("faults: crash={:?} writes={:?} open={:?} reads={:?}", f.crash, f.write_script, f.open_fault, f.read_script);
 
     // ---- first life ---------------------------------------------------------
     let mut stored: Vec<View> = vec![]; // key sets handed to store(), in order
     let mut cookies: Vec<Cookie> = vec![];
     let target = s.rotations;
-    let boot_plan = if target == 0 { target_plan(counts[0]) } else { Plan::default() };
+    let boot_plan = if target == 0 { f.plan() } else { Plan::default() };
     let Some(mut p) = Proc::start(&disk, &cfg, 0, boot_plan).await else { return };
     let mut completed: Vec<bool> = vec![]; // did store i run to completion
     for i in 0..=target {
         if i > 0 {
             if i == target {
-                disk.set_plan(target_plan(counts[i]));
+                disk.set_plan(f.plan());
             }
             p.rotate();
         }
@@ -572,7 +626,7 @@ async fn run_lifecycle(disk: Arc<Disk>, s: Scenario, crash: Option<Option<u64>>,
         stored.push(view);
         let file = disk.file(FILE);
         let is_target = i == target;
-        let faulted = is_target && (crash.is_some() || !matches!(io, IoFault::Clean) && !is_load_fault);
+        let faulted = is_target && f.store_faulted();
         if !faulted {
             // a store that met no fault must leave exactly the stored set on disk, mode 0600 if created
             let mut mem = vec![];
@@ -587,7 +641,7 @@ async fn run_lifecycle(disk: Arc<Disk>, s: Scenario, crash: Option<Option<u64>>,
             completed.push(ok);
         } else {
             let len = file.as_ref().map(|f| f.data.len() as u64).unwrap_or(0);
-            completed.push(len == store_bytes(counts[i]) && !matches!(io, IoFault::OpenNotFound | IoFault::OpenDenied));
+            completed.push(len == store_bytes(counts[i]) && f.open_fault.is_none());
         }
         if i == 0 && s.pre == Pre::None {
             if let Some(f) = &file {
@@ -602,12 +656,13 @@ async fn run_lifecycle(disk: Arc<Disk>, s: Scenario, crash: Option<Option<u64>>,
         }
     }
     let crashed = disk.frozen();
-    if crash.is_some() && !crashed {
+    if crash.is_some() && !crashed && !f.crash_may_miss {
         // crash point beyond the end of the write stream cannot happen (enumeration bound)
         simkit::abort("harness: planned crash did not fire".into());
     }
     let mut last_completed = *completed.last().unwrap();
     if extra_rotation && !crashed {
+        disk.set_plan(Plan::default());
         p.rotate();
         let ks = p.current();
         let view = ks.verif_disk_view();
@@ -631,16 +686,7 @@ async fn run_lifecycle(disk: Arc<Disk>, s: Scenario, crash: Option<Option<u64>>,
     p.kill();
 
     // ---- second life --------------------------------------------------------
-    let mut plan = Plan::default();
-    match io {
-        IoFault::LoadShortReads => plan.read_script = (0..40).map(|k| ReadStep::Short(1 + k % 7)).collect(),
-        IoFault::LoadEintr => plan.read_script = vec![ReadStep::Eintr, ReadStep::Full, ReadStep::Eintr, ReadStep::Short(3), ReadStep::Eintr],
-        IoFault::LoadEio(k) => {
-            plan.read_script = vec![ReadStep::Full; k];
-            plan.read_script.push(ReadStep::Eio);
-        }
-        _ => {}
-    }
+    let plan = Plan { read_script: f.read_script.clone(), ..Plan::default() };
     let Some(mut p2) = Proc::start(&disk, &cfg, 1, plan).await else { return };
     let loaded_set = p2.current();
     let loaded = loaded_set.verif_disk_view();
@@ -650,8 +696,13 @@ async fn run_lifecycle(disk: Arc<Disk>, s: Scenario, crash: Option<Option<u64>>,
     let is_last = &loaded == in_progress;
     // "completed earlier": only a store whose file was never truncated again can still be on disk,
     // i.e. the previous one when the crash came before the truncating open
-    let prev_ok = crash == Some(None) && stored.len() >= 2 && &loaded == &stored[stored.len() - 2];
-    let prev_file_ok = crash == Some(None) && stored.len() == 1 && pre_view.as_ref() == Some(&loaded);
+    // the file was never truncated by the store under test: crash before the open, or the open itself failed
+    let untruncated = (crash == Some(None) && crashed) || (!extra_rotation && f.open_fault.is_some());
+    let prev_ok = untruncated && stored.len() >= 2 && &loaded == &stored[stored.len() - 2];
+    let prev_file_ok = untruncated && stored.len() == 1 && pre_view.as_ref() == Some(&loaded);
+    if prev_ok || prev_file_ok {
+        probe("restart-restored-previous-store");
+    }
     let everything: Vec<&View> = stored.iter().chain(pre_view.iter()).collect();
     let fresh = everything.iter().all(|v| disjoint(&loaded, v));
     if fresh {
@@ -672,8 +723,8 @@ async fn run_lifecycle(disk: Arc<Disk>, s: Scenario, crash: Option<Option<u64>>,
         in_progress.2,
         in_progress.1
     );
-    let load_faulted = matches!(io, IoFault::LoadEio(_));
-    if last_completed && !load_faulted && crash != Some(None) {
+    let load_faulted = f.load_fails();
+    if last_completed && !load_faulted && !untruncated {
         check!(
             P,
             "restart-restores-stored-set",
@@ -695,9 +746,9 @@ async fn run_lifecycle(disk: Arc<Disk>, s: Scenario, crash: Option<Option<u64>>,
                     check!(P, "restart-cookies-stay-valid", after == Ok(true), "cookie #{i} decoded before the restart but not after it: {after:?}");
                 }
             }
-            if let Some(c) = cookies.last() {
+            if let Some((_, c)) = cookies.iter().enumerate().rev().find(|(i, _)| valid_before[*i]) {
                 let served = serve(loaded_set.clone(), c);
-                check!(P, "restart-cookies-get-time", served == Ok(true), "the newest cookie issued before the restart does not get time afterwards: {served:?}");
+                check!(P, "restart-cookies-get-time", served == Ok(true), "the newest cookie that was valid before the restart does not get time afterwards: {served:?}");
             }
         }
     }
@@ -713,6 +764,61 @@ async fn run_lifecycle(disk: Arc<Disk>, s: Scenario, crash: Option<Option<u64>>,
         check!(P, "store-writes-whole-set", len as u64 == store_bytes(next.verif_disk_view().0.len()), "store after restart left {len} bytes");
     }
     p2.kill();
+}
+
+// ---------------------------------------------------------------------------
+// case D: seeded fault sequences (several faults in one store, then faults in the load)
+// ---------------------------------------------------------------------------
+
+async fn run_sequence(disk: Arc<Disk>) {
+    use simkit::{chance, choose, weighted};
+    let s = Scenario {
+        history: [1usize, 0, 3, 2][choose("seq.history", 4) as usize],
+        pre: PRES[choose("seq.pre", PRES.len() as u64) as usize],
+        rotations: choose("seq.rotations", MAX_ROT as u64 + 1) as usize,
+    };
+    let n = *key_counts(&s).last().unwrap();
+    let mut f = Faults { crash_may_miss: true, ..Faults::default() };
+    let faulty = chance("seq.faulty", 0.75);
+    if faulty {
+        match weighted("seq.crash", &[5, 1, 4]) {
+            1 => f.crash = Some(None),
+            2 => f.crash = Some(Some(choose("seq.crash-at", store_bytes(n) + 1))),
+            _ => {}
+        }
+        let steps = choose("seq.write-steps", (4 + n as u64) * 3);
+        for _ in 0..steps {
+            f.write_script.push(match weighted("seq.write-step", &[6, 3, 2]) {
+                1 => WriteStep::Short(1 + choose("seq.short-n", 63) as usize),
+                2 => WriteStep::Eintr,
+                _ => WriteStep::Full,
+            });
+        }
+        if chance("seq.write-error", 0.3) {
+            let at = choose("seq.write-error-at", f.write_script.len() as u64 + 1) as usize;
+            f.write_script.truncate(at);
+            f.write_script.push(if chance("seq.eio", 0.5) { WriteStep::Eio } else { WriteStep::Enospc });
+        }
+        if chance("seq.open-fault", 0.05) {
+            f.open_fault = Some(if chance("seq.open-eacces", 0.5) { OpenFault::PermissionDenied } else { OpenFault::NotFound });
+        }
+        let rsteps = choose("seq.read-steps", 12);
+        for _ in 0..rsteps {
+            f.read_script.push(match weighted("seq.read-step", &[4, 4, 2]) {
+                1 => ReadStep::Short(1 + choose("seq.read-short-n", 63) as usize),
+                2 => ReadStep::Eintr,
+                _ => ReadStep::Full,
+            });
+        }
+        if chance("seq.read-error", 0.1) {
+            let at = choose("seq.read-error-at", f.read_script.len() as u64 + 1) as usize;
+            f.read_script.truncate(at);
+            f.read_script.push(ReadStep::Eio);
+        }
+    }
+    let extra = faulty && chance("seq.extra-rotation", 0.3);
+    ev!("sequence scenario {s:?} extra_rotation={extra}");
+    run_lifecycle(disk, s, f, extra).await
 }
 
 // ---------------------------------------------------------------------------
@@ -824,12 +930,16 @@ pub fn run() {
     let case = all[(simkit::run_index() % all.len() as u64) as usize];
     let id = format!("{:016x}-{}", simkit::seed(), simkit::run_index());
     let disk = simfs::mount(&id);
-    ev!("c27 case {case:?}");
+    ev!("c27 case {case:?} (of {} cases)", all.len());
     let d2 = disk.clone();
     exec::block_on(async move {
         match case {
-            Case::Crash(s, c) => run_lifecycle(d2, s, Some(c), IoFault::Clean, false).await,
-            Case::Io(s, f, extra) => run_lifecycle(d2, s, None, f, extra).await,
+            Case::Crash(s, c) => run_lifecycle(d2, s, Faults { crash: Some(c), ..Faults::default() }, false).await,
+            Case::Io(s, io, extra) => {
+                let n = *key_counts(&s).last().unwrap();
+                run_lifecycle(d2, s, faults_of(io, n), extra).await
+            }
+            Case::Seq(_) => run_sequence(d2).await,
             Case::Corrupt(h, n, c) => run_corrupt(d2, h, n, c).await,
         }
     });
